@@ -928,9 +928,9 @@ Section Steps.
     (forall i, oi_id (f i) = oi_id i /\ oi_when (f i) = oi_when i /\ oi_done (f i) = oi_done i
                /\ oi_ph (f i) = oi_ph i) ->
     (* wires only move towards closed; surely-open ones stay so only while their timer is not due *)
-    (forall i, is_open (oi_wire (f i)) = true -> is_open (oi_wire i) = true) ->
-    (forall i, oi_wire (f i) = WOpen -> oi_wire i = WOpen /\ (s_now s' < oi_when i)%N) ->
-    (forall i, oi_wire (f i) = WMaybe ->
+    (forall i, In i (o_incs o) -> is_open (oi_wire (f i)) = true -> is_open (oi_wire i) = true) ->
+    (forall i, In i (o_incs o) -> oi_wire (f i) = WOpen -> oi_wire i = WOpen /\ (s_now s' < oi_when i)%N) ->
+    (forall i, In i (o_incs o) -> oi_wire (f i) = WMaybe ->
                (oi_wire i = WMaybe \/ (oi_when i <= s_now s')%N)) ->
     (* owners keep an open wire *)
     (forall k e oi, In e (s_inflight s) -> owns o s k e -> nth_error (o_incs o) k = Some oi ->
@@ -943,15 +943,16 @@ Section Steps.
     intros o o' s s' f HI Hincs Hf Hop Hopen Hmaybe Hown (T3 & T4 & T5)
            (C1 & C2 & C3 & C4 & C5 & C6 & C8) Hle Hnow Hall Heof.
     assert (Hnth : forall k x, nth_error (o_incs o') k = Some x ->
-               exists y, nth_error (o_incs o) k = Some y /\ x = f y).
+               exists y, nth_error (o_incs o) k = Some y /\ x = f y /\ In y (o_incs o)).
     { intros k x Hx. rewrite Hincs, nth_error_map in Hx.
-      destruct (nth_error (o_incs o) k) as [y|]; cbn in Hx; [|discriminate]. inversion Hx. eauto. }
+      destruct (nth_error (o_incs o) k) as [y|] eqn:Ey; cbn in Hx; [|discriminate]. inversion Hx.
+      exists y. repeat split; auto. eapply nth_error_In; eauto. }
     constructor.
     - rewrite Hincs, map_length, C1. exact (u_len _ _ HI).
     - exact Hnow.
     - rewrite T3, C8. exact (u_dropped _ _ HI).
     - exact Heof.
-    - intros k hr oi Hk Hoi. rewrite C1 in Hk. destruct (Hnth _ _ Hoi) as (y & Hy & ->).
+    - intros k hr oi Hk Hoi. rewrite C1 in Hk. destruct (Hnth _ _ Hoi) as (y & Hy & -> & Hiny).
       destruct (Hf y) as (F1 & F2 & F3 & F4). rewrite F1, F3, F4, C2. exact (u_hand _ _ HI k hr y Hk Hy).
     - rewrite C1. exact (u_hnodup _ _ HI).
     - rewrite C3. exact (u_enodup _ _ HI).
@@ -959,11 +960,11 @@ Section Steps.
     - rewrite C3, C2. exact (u_efresh _ _ HI).
     - rewrite C3, C4. exact (u_timers _ _ HI).
     - intros k1 k2 x1 x2 H1 H2 Hid Ho1 Ho2.
-      destruct (Hnth _ _ H1) as (y1 & Hy1 & ->). destruct (Hnth _ _ H2) as (y2 & Hy2 & ->).
+      destruct (Hnth _ _ H1) as (y1 & Hy1 & -> & Hin1). destruct (Hnth _ _ H2) as (y2 & Hy2 & -> & Hin2).
       destruct (Hf y1) as (F1 & _). destruct (Hf y2) as (G1 & _).
       apply (u_one_open _ _ HI k1 k2 y1 y2); auto; congruence.
-    - intros k oi Hoi Hw. destruct (Hnth _ _ Hoi) as (y & Hy & ->).
-      destruct (Hf y) as (_ & F2 & _). rewrite F2. apply Hopen. exact Hw.
+    - intros k oi Hoi Hw. destruct (Hnth _ _ Hoi) as (y & Hy & -> & Hiny).
+      destruct (Hf y) as (_ & F2 & _). rewrite F2. apply Hopen; auto.
     - intros e He. rewrite C3 in He.
       destruct (u_owner _ _ HI e He) as [[k Hk]|[Hx Hy]].
       + left. exists k. pose proof Hk as (hr & oi & A & B & C & D & E & F & G).
@@ -975,12 +976,12 @@ Section Steps.
           inversion Hoi'. destruct (Hf y') as (Y1 & _). rewrite Y1. eapply G; eauto.
       + right. rewrite T4, T5, C1. auto.
     - intros k hr oi Hk Hoi Hin. rewrite C1 in Hk. rewrite C5 in Hin. rewrite C8.
-      destruct (Hnth _ _ Hoi) as (y & Hy & ->).
+      destruct (Hnth _ _ Hoi) as (y & Hy & -> & Hiny).
       destruct (u_aborted _ _ HI k hr y Hk Hy Hin) as [L|R]; [left|right; exact R].
-      intros Hw. apply L. apply Hopen. exact Hw.
+      intros Hw. apply L. apply Hopen; auto.
     - intros k e oi He (hr & oi' & A & B & C & D & E & F & G) Hoi Hm.
       rewrite C3 in He. rewrite B in Hoi. inversion Hoi; subst oi'.
-      destruct (Hnth _ _ B) as (y & Hy & ->). destruct (Hf y) as (F1 & F2 & _).
+      destruct (Hnth _ _ B) as (y & Hy & -> & Hiny). destruct (Hf y) as (F1 & F2 & _).
       rewrite F1, F2, C6.
       assert (Ho : owns o s k e).
       { exists hr, y. rewrite C1 in A. rewrite C4 in F. rewrite F1 in D. rewrite F2 in F.
@@ -988,7 +989,7 @@ Section Steps.
         intros k' oi'' Hlt Hoi''.
         assert (nth_error (o_incs o') k' = Some (f oi'')) by (rewrite Hincs, nth_error_map, Hoi''; reflexivity).
         destruct (Hf oi'') as (Z1 & _). rewrite <- Z1. eapply G; eauto. }
-      destruct (Hmaybe y Hm) as [L|R]; [|left; exact R].
+      destruct (Hmaybe y Hiny Hm) as [L|R]; [|left; exact R].
       destruct (u_maybe _ _ HI k e y He Ho Hy L) as [L'|R']; [left; lia|right; exact R'].
     - intros Hce e He Hno. rewrite T5 in Hce. rewrite C3 in He. rewrite C1 in Hno. rewrite C4.
       destruct (N.eq_dec (s_now s') (s_now s)) as [Heq|Hne].
